@@ -474,7 +474,9 @@ class IncompleteHashTree(CompleteBinaryTreeMixin, list):
                     this_level.discard(siblingnum)
             # we're done!
 
-        except (BadHashError, NotEnoughHashesError):
+        except (BadHashError, NotEnoughHashesError, IndexError):
+            # IndexError: a hash index outside the tree. Callers treat it as
+            # a rejection too, so the provisional hashes must not stay.
             for i in remove_upon_failure:
                 self[i] = None
             raise
